@@ -381,8 +381,9 @@ def oracle(case):
     if not K.in_domain_tpl(rec.tpl):
         return []          # wildcard templates belong to the partial-matching engine
     mode = case.get("mode", "E")
-    if not K.tpl_mode_ok(rec.tpl, mode):
-        return []          # hydrogen mode does not fit how the template is written (API precondition)
+    if not K.tpl_mode_ok(rec.tpl, mode) and not case.get("key"):
+        return []          # hydrogen mode does not fit how the template is written (API precondition: the docstring asks for
+                           # implicit_temp=True with implicit-H templates); the keyed regress witnesses of this class are judged
     inv = bool(case.get("invert", False))
     fails = []
     base = _case_key(case)
